@@ -28,6 +28,11 @@ NodeOf(i, ino) == IF ino = Runs[i].rootino THEN 0
                   ELSE IF \E n \in 1 .. Len(Runs[i].snapshot) : Runs[i].snapshot[n].ino = ino
                        THEN CHOOSE n \in 1 .. Len(Runs[i].snapshot) : Runs[i].snapshot[n].ino = ino ELSE -1
 
+(* hard links share an inode number: among the unread entries of the directory being listed that carry the logged inode the *)
+(* least one is taken (they are interchangeable for the walk: links to directories do not exist)                             *)
+EntryOf(i, ino) == LET c == { n \in Top.unread : Runs[i].snapshot[n].ino = ino } IN
+                   IF c = {} THEN -1 ELSE CHOOSE n \in c : \A m \in c : n <= m
+
 Load(i) == /\ w' = Runs[i].world /\ roots' = Runs[i].roots /\ win' = <<Runs[i].min, Runs[i].max>>
            /\ dfs' = Runs[i].dfs /\ limit' = Runs[i].limit
            /\ ri' = 0 /\ stack' = <<>> /\ queue' = <<>> /\ visited' = {} /\ found' = 0 /\ out' = <<>> /\ pc' = "roots"
@@ -38,7 +43,7 @@ TInit == /\ ti = 1 /\ tl = 1
 
 Step(ev) ==
   \/ ev.ev = "root" /\ ri < Len(roots) /\ NextRoot /\ roots[ri + 1] = NodeOf(ti, ev.ino)
-  \/ /\ ev.ev = "entry" /\ PickOne(NodeOf(ti, ev.ino))
+  \/ /\ ev.ev = "entry" /\ stack # <<>> /\ EntryOf(ti, ev.ino) # -1 /\ PickOne(EntryOf(ti, ev.ino))
      /\ (Len(out') > Len(out)) = ev.reported
      /\ ev.descend = (IF Len(stack') > Len(stack) THEN "dfs" ELSE IF Len(queue') > Len(queue) THEN "enqueue" ELSE "no")
   \/ ev.ev = "break" /\ LimitBreak
